@@ -7,6 +7,7 @@ import (
 	"net/http"
 	"sort"
 	"strings"
+	"sync"
 	"time"
 
 	"github.com/q191201771/lal/pkg/rtmp"
@@ -138,7 +139,16 @@ func (g *Group) verifDump() string {
 		n, sz := g.rtmpMergeWriter.VerifPending()
 		fmt.Fprintf(&sb, " merge[%d bufs %d bytes]", n, sz)
 	}
-	fmt.Fprintf(&sb, " pull[static=%d api=%d cnt=%d]", b2i(g.pullProxy.staticRelayPullEnable), b2i(g.pullProxy.apiEnable), g.pullProxy.startCount)
+	fmt.Fprintf(&sb, " pull[static=%d api=%d cnt=%d retry=%d auto=%d]", b2i(g.pullProxy.staticRelayPullEnable), b2i(g.pullProxy.apiEnable), g.pullProxy.startCount,
+		g.pullProxy.pullRetryNum, g.pullProxy.autoStopPullAfterNoOutMs)
+	if g.pullProxy.autoStopPullAfterNoOutMs > 0 {
+		// the age of the last sighting of a consumer matters only against the auto-stop window
+		age := g.verifNow().UnixNano()/1e6 - g.pullProxy.lastHasOutTs
+		if age > int64(g.pullProxy.autoStopPullAfterNoOutMs) {
+			age = int64(g.pullProxy.autoStopPullAfterNoOutMs)
+		}
+		fmt.Fprintf(&sb, " noOutAge=%d", age)
+	}
 	return sb.String()
 }
 
@@ -151,3 +161,74 @@ func verifNow() time.Time {
 	}
 	return time.Now()
 }
+
+// Per-server clock: inside Group methods vgen rewrites time.Now to group.verifNow, which asks the
+// clock registered for the group's ServerManager (so concurrently explored worlds have their own time).
+var verifClocks sync.Map // IGroupObserver -> func() time.Time
+
+func VerifSetClock(sm *ServerManager, f func() time.Time) {
+	if f == nil {
+		verifClocks.Delete(IGroupObserver(sm))
+		return
+	}
+	verifClocks.Store(IGroupObserver(sm), f)
+}
+
+func (group *Group) verifNow() time.Time {
+	if f, ok := verifClocks.Load(group.observer); ok {
+		return f.(func() time.Time)()
+	}
+	return verifNow()
+}
+
+// Relay goroutine accounting (vgen brackets the `go func` statements of group__relay_pull.go and
+// group__relay_push.go with these two calls).
+type verifRelayAcct struct {
+	mu   sync.Mutex
+	live int
+	adds int // completed AddRtmpPushSession calls
+}
+
+var verifRelay sync.Map // IGroupObserver -> *verifRelayAcct
+
+func verifRelayOf(group *Group) *verifRelayAcct {
+	v, _ := verifRelay.LoadOrStore(group.observer, &verifRelayAcct{})
+	return v.(*verifRelayAcct)
+}
+
+// called with the group lock held, before the go statement
+func verifRelaySpawn(group *Group) {
+	a := verifRelayOf(group)
+	a.mu.Lock()
+	a.live++
+	a.mu.Unlock()
+}
+
+func verifRelayDone(group *Group) {
+	a := verifRelayOf(group)
+	a.mu.Lock()
+	a.live--
+	a.mu.Unlock()
+}
+
+func verifPushAdded(group *Group) {
+	a := verifRelayOf(group)
+	a.mu.Lock()
+	a.adds++
+	a.mu.Unlock()
+}
+
+// VerifRelayActive: number of relay goroutines alive and number of AddRtmpPushSession calls completed.
+func VerifRelayActive(sm *ServerManager) (goroutines, pushAdds int) {
+	v, ok := verifRelay.Load(IGroupObserver(sm))
+	if !ok {
+		return 0, 0
+	}
+	a := v.(*verifRelayAcct)
+	a.mu.Lock()
+	defer a.mu.Unlock()
+	return a.live, a.adds
+}
+
+// VerifRelayForget drops the accounting of a server (world closed).
+func VerifRelayForget(sm *ServerManager) { verifRelay.Delete(IGroupObserver(sm)) }
